@@ -333,8 +333,10 @@ PROPS['C12'] = dict(
          'as in C13 with the scratch buffer sized for all sets. non-trivial = history in which an output or integrator limit became active and inactive again, or a zero occurred mid-history; distinct = hash of configuration and decoded steps',
     assumptions=COMMON_ASSUME + ['inputs obey the quantifier: ki >= 0, summin <= 0 <= summax, outmin <= outmax, magnitudes <= 1e6 so that no intermediate overflows',
                                  'the reference model follows the equations documented in pid.h; on the exact class all arithmetic is exact, so equality is required'],
-    units=lambda tier, seed: [Unit('pid', 'exec/C12.cc', ['a.c', 'math.c', 'mf.c', 'fuzzy.c', 'pid.c', 'pid_fuzzy.c', 'pid_neuro.c'], tape_len=500)],
-    plan={'quick': dict(rc_procs=10, rc_cases=15000, fuzz_procs=6, fuzz_secs=25),
+    units=lambda tier, seed: [Unit(nm, 'exec/C12.cc', ['a.c', 'math.c', 'mf.c', 'fuzzy.c', 'pid.c', 'pid_fuzzy.c', 'pid_neuro.c'], defs=config_defs(real), tape_len=500,
+                                   config='a_real = %s (A_SIZE_REAL=%d), all A_HAVE_* on' % (ty, real))
+                              for nm, real, ty in (('pid', 8, 'double'), ('pid-f32', 4, 'float'))],
+    plan={'quick': dict(rc_procs=6, rc_cases=15000, fuzz_procs=3, fuzz_secs=25),
           'thorough': dict(rc_procs=8, rc_cases=250000, fuzz_procs=8, fuzz_secs=300)},
     technique='model-based stateful property-based testing: exact reference of the documented difference equations on an exactly representable input class, invariants after every step, twin-controller metamorphic relations (positional = incremental, zero = fresh, zero rule base = plain); rapidcheck tapes + libFuzzer',
     level_text='generated configurations and input histories for all three controllers and modes; exact equality on the exactly representable class; sampling, not proof',
